@@ -40,8 +40,8 @@ def invoke(d: Path, cfg: dict, args, name="cfg.yaml"):
             "sink": sink.read_text() if sink.exists() else "", "stderr": se[-300:], "stdout": so[-200:], "files": tfiles}
 
 
-def base_cfg(d: Path, nodes, rs=None):
-    cfg = {"extensions": ["props.components"], "trace": {"driver": "jsonl", "output_path": str(d / "tracedir")},
+def base_cfg(d: Path, nodes, rs=None, trace_to_file=False):
+    cfg = {"extensions": ["props.components"], "trace": {"driver": "jsonl", "output_path": str(d / ("trace_out.jsonl" if trace_to_file else "tracedir"))},
            "pipeline": {"nodes": nodes}}
     if rs is not None:
         cfg["run_space"] = rs
@@ -55,6 +55,8 @@ def clean(d: Path):
             p.unlink()
     if (d / "tracedir").exists():
         shutil.rmtree(d / "tracedir")
+    if (d / "trace_out.jsonl").exists():
+        (d / "trace_out.jsonl").unlink()
 
 
 def extract_gate_table():
@@ -75,7 +77,7 @@ def extract_gate_table():
                 elif b == "capExceeded":
                     rs["max_runs"] = 1
                 clean(d)
-                o = invoke(d, base_cfg(d, nodes, rs), args + FLAG_ARGS[f])
+                o = invoke(d, base_cfg(d, nodes, rs, trace_to_file=(len(table) % 2 == 1)), args + FLAG_ARGS[f])
                 table.append([b, f, o["code"], o["nodes_entered"] > 0 or bool(o["sink"]) or bool(o["trace_files"])])
     return table
 
@@ -208,11 +210,13 @@ def classify_and_run(rep, drv, rnd, d: Path, nodes, flag, want_blocker, stats, m
         if rnd.random() < 0.5:
             rnd.shuffle(args_groups := [args[:2], args[2:]])
             args = args_groups[0] + args_groups[1]
-    cfg = base_cfg(d, nodes, None if rs_in_file else rs)
+    trace_to_file = rnd.random() < 0.5              # a trace *file* must not exist either when nothing was executed
+    cfg = base_cfg(d, nodes, None if rs_in_file else rs, trace_to_file=trace_to_file)
+    stats["trace_to_file"] = stats.get("trace_to_file", 0) + (1 if trace_to_file else 0)
     stats["run_space_file"] = stats.get("run_space_file", 0) + (1 if rs_in_file else 0)
     clean(d)
     o = invoke(d, cfg, args)
-    pub = {"nodes": nodes, "run_space": rs, "run_space_via_file": rs_in_file, "args": args, "blocker": blocker, "flag": flag, "required_keys": required}
+    pub = {"nodes": nodes, "run_space": rs, "run_space_via_file": rs_in_file, "trace_output": "file" if trace_to_file else "directory", "args": args, "blocker": blocker, "flag": flag, "required_keys": required}
     stats["by_class"][f"{blocker}/{flag}"] = stats["by_class"].get(f"{blocker}/{flag}", 0) + 1
     executed = o["nodes_entered"] > 0
     side_effects = bool(o["sink"]) or bool(o["trace_files"])
